@@ -373,9 +373,12 @@ class World:
         """Contents through the API (keys and values)."""
         t = self.target
         if t == 'deque':
-            return ('deque', list(self.obj))
+            try:
+                return ('deque', list(self.obj))
+            except Exception as exc:  # an item that is listed but cannot be read
+                return ('deque', 'UNREADABLE: %s' % type(exc).__name__, list(self.cache))
         if t == 'index':
-            return ('index', list(self.obj.items()))
+            return ('index', [(k, self.cache.get(k, 'LISTED-BUT-UNREADABLE')) for k in list(self.obj.keys())])
         if t == 'django':
             c = self.obj._cache
         else:
